@@ -3,7 +3,15 @@
    .responses, .redirects, the connector in use, and what reaches the wire;
    Client.request / serviceRequests / transmit / serviceResponse / redirect
    AFTER the fixes 4c3e4d0, c547b52, 0fbd53d (refused redirects are delivered as
-   errored final responses) and 8e2b43a (https -> http refusal takes that path).
+   errored final responses), 8e2b43a (https -> http refusal takes that path) and
+   af3fc6c (a followed redirect keeps the method of the redirected request).
+
+   Methods: every tag has a method [mof tag] (0 GET, 1 HEAD, 2 POST, 3 PUT).  The
+   state carries requester.method and respondent.method; the server answers a HEAD
+   (and 204/304/1xx) without body bytes whatever Content-Length says, and the
+   respondent consumes a reply only if its own idea of "this reply has no body"
+   (Respondent.parseHead: method == HEAD or 204/304/1xx) matches what was sent -
+   otherwise it waits for body bytes that never come, or stops early.
 
    One [Pass] is one Client.service(): serviceRequests, then the sends, then
    serviceResponse, which may complete at most one reply.  Response parsing is
@@ -37,11 +45,20 @@ Record cstate := {
   cut : bool;               (* connector.cutoff: the server closed this connection *)
   sent : bool;              (* a request is on the wire and unanswered *)
   wire : list wentry;       (* what servers received, in order *)
-  redirectable : bool }.
+  redirectable : bool;
+  rq_method : N;            (* requester.method *)
+  rs_method : N }.          (* respondent.method *)
 
-Definition init (sec rd : bool) : cstate :=
+Definition init_m (sec rd : bool) (m : N) : cstate :=
   {| queue := []; waited := false; latest := None; responses := []; redirects := [];
-     conn := 0; host := 0; https := sec; cut := false; sent := false; wire := []; redirectable := rd |}.
+     conn := 0; host := 0; https := sec; cut := false; sent := false; wire := []; redirectable := rd;
+     rq_method := m; rs_method := m |}.
+Definition init (sec rd : bool) : cstate := init_m sec rd 0.
+
+Definition HEAD : N := 1.
+(* Respondent.parseHead: the reply has no body *)
+Definition no_body (m st : N) : bool :=
+  (m =? HEAD) || (st =? 204) || (st =? 304) || ((100 <=? st) && (st <? 200)).
 
 Definition is_redirect (st : N) : bool :=
   (st =? 300) || (st =? 301) || (st =? 302) || (st =? 303) || (st =? 307).
@@ -50,13 +67,14 @@ Definition is_redirect (st : N) : bool :=
 Definition enq (s : cstate) (t : N) : cstate :=
   {| queue := queue s ++ [t]; waited := waited s; latest := latest s; responses := responses s;
      redirects := redirects s; conn := conn s; host := host s; https := https s; cut := cut s;
-     sent := sent s; wire := wire s; redirectable := redirectable s |}.
+     sent := sent s; wire := wire s; redirectable := redirectable s;
+       rq_method := rq_method s; rs_method := rs_method s |}.
 
 Definition on_wire (s : cstate) (it : witem) : wentry :=
   {| w_conn := conn s; w_https := https s; w_host := host s; w_item := it |}.
 
 (* serviceRequests + transmit + serviceSends: txbs leaves only while not cut off *)
-Definition pump (s : cstate) : cstate :=
+Definition pump (mof : N -> N) (s : cstate) : cstate :=
   if waited s then s else
   match queue s with
   | [] => s
@@ -65,7 +83,8 @@ Definition pump (s : cstate) : cstate :=
        redirects := redirects s; conn := conn s; host := host s; https := https s; cut := cut s;
        sent := negb (cut s);
        wire := if cut s then wire s else wire s ++ [on_wire s (WReq t)];
-       redirectable := redirectable s |}
+       redirectable := redirectable s;
+       rq_method := mof t; rs_method := mof t |}
   end.
 
 (* the response entry is appended with the redirect history, .redirects cleared, .waited cleared *)
@@ -74,7 +93,8 @@ Definition deliver (s : cstate) (st : N) (err cut' : bool) : cstate :=
      responses := responses s ++ [{| e_status := st; e_tag := latest s; e_errored := err;
                                      e_history := redirects s |}];
      redirects := []; conn := conn s; host := host s; https := https s; cut := cut';
-     sent := false; wire := wire s; redirectable := redirectable s |}.
+     sent := false; wire := wire s; redirectable := redirectable s;
+       rq_method := rq_method s; rs_method := rs_method s |}.
 
 (* serviceResponse on a completely parsed reply *)
 Definition complete (s : cstate) (r : reply) : cstate :=
@@ -92,7 +112,8 @@ Definition complete (s : cstate) (r : reply) : cstate :=
            conn := conn s; host := host s; https := https s; cut := cut';
            sent := negb cut';
            wire := if cut' then wire s else wire s ++ [on_wire s (WRedir (rp_id r))];
-           redirectable := redirectable s |}
+           redirectable := redirectable s;
+       rq_method := rq_method s; rs_method := rq_method s |}
       else if https s && negb sec then
         deliver s (rp_status r) true cut'                  (* https -> http refused *)
       else
@@ -102,22 +123,28 @@ Definition complete (s : cstate) (r : reply) : cstate :=
            conn := conn s + 1; host := h; https := sec; cut := false; sent := true;
            wire := wire s ++ [{| w_conn := conn s + 1; w_https := sec; w_host := h;
                                  w_item := WRedir (rp_id r) |}];
-           redirectable := redirectable s |}
+           redirectable := redirectable s;
+       rq_method := rq_method s; rs_method := rq_method s |}
     end
   else deliver s (rp_status r) false cut'.
 
-Definition step (s : cstate) (e : event) : cstate :=
+(* the server saw rq_method on the wire and sent body bytes accordingly; the respondent
+   reads the reply with rs_method *)
+Definition readable (s : cstate) (r : reply) : bool :=
+  Bool.eqb (no_body (rs_method s) (rp_status r)) (no_body (rq_method s) (rp_status r)).
+
+Definition step (mof : N -> N) (s : cstate) (e : event) : cstate :=
   match e with
   | Enq t => enq s t
   | Pass o =>
-    let s1 := pump s in
+    let s1 := pump mof s in
     match o with
-    | Some r => if waited s1 && sent s1 then complete s1 r else s1
+    | Some r => if waited s1 && sent s1 && readable s1 r then complete s1 r else s1
     | None => s1
     end
   end.
 
-Definition run (s : cstate) (evs : list event) : cstate := fold_left step evs s.
+Definition run (mof : N -> N) (s : cstate) (evs : list event) : cstate := fold_left (step mof) evs s.
 
 (* ---------- observations ---------- *)
 Definition origin (e : entry) : option N :=
@@ -137,16 +164,17 @@ Definition obs := (bool * N * N * N)%type.   (* waited, len(requests), len(respo
 Definition observe (s : cstate) : obs :=
   (waited s, N.of_nat (length (queue s)), N.of_nat (length (responses s)), N.of_nat (length (redirects s))).
 
-Fixpoint run_trace (s : cstate) (evs : list event) : cstate * list obs :=
+Fixpoint run_trace (mof : N -> N) (s : cstate) (evs : list event) : cstate * list obs :=
   match evs with
   | [] => (s, [])
   | e :: r =>
-    let s' := step s e in
-    let (sf, tr) := run_trace s' r in
+    let s' := step mof s e in
+    let (sf, tr) := run_trace mof s' r in
     (sf, match e with Pass _ => observe s' :: tr | Enq _ => tr end)
   end.
 
-Record case := { c_https : bool; c_redirectable : bool; c_events : list event;
+Record case := { c_https : bool; c_redirectable : bool; c_cmethod : N; c_methods : list (N * N);
+                 c_events : list event;
                  c_trace : list obs; c_entries : list entry; c_wire : list wentry }.
 
 Definition obs_eqb (x y : obs) : bool :=
@@ -161,8 +189,11 @@ Definition wentry_eqb (x y : wentry) : bool :=
   (w_conn x =? w_conn y) && Bool.eqb (w_https x) (w_https y) && (w_host x =? w_host y) &&
   witem_eqb (w_item x) (w_item y).
 
+Fixpoint mof_of (l : list (N * N)) (t : N) : N :=
+  match l with [] => 0 | (k, m) :: r => if k =? t then m else mof_of r t end.
+
 Definition check_case (c : case) : bool :=
-  let (s, tr) := run_trace (init (c_https c) (c_redirectable c)) (c_events c) in
+  let (s, tr) := run_trace (mof_of (c_methods c)) (init_m (c_https c) (c_redirectable c) (c_cmethod c)) (c_events c) in
   list_eqb obs_eqb tr (c_trace c) && list_eqb entry_eqb (responses s) (c_entries c) &&
   list_eqb wentry_eqb (wire s) (c_wire c).
 
@@ -172,15 +203,15 @@ Definition check_case (c : case) : bool :=
    7 redirect on a new connector  8 refused: no Location  9 refused: https -> http
    10 3xx delivered because not redirectable  11 reply whose server then closes *)
 Definition n_branches : nat := 12.
-Definition branch_of (s : cstate) (e : event) : list nat :=
+Definition branch_of (mof : N -> N) (s : cstate) (e : event) : list nat :=
   match e with
   | Enq _ => [0%nat]
   | Pass o =>
-    let s1 := pump s in
+    let s1 := pump mof s in
     let p := if waited s then [] else match queue s with [] => [] | _ => [if cut s then 3%nat else 2%nat] end in
     match o with
     | Some r =>
-      if waited s1 && sent s1 then
+      if waited s1 && sent s1 && readable s1 r then
         p ++ (if rp_close r then [11%nat] else []) ++
         (if is_redirect (rp_status r) then
            if redirectable s1 then
@@ -198,6 +229,7 @@ Definition branch_of (s : cstate) (e : event) : list nat :=
     | None => match p with [] => [1%nat] | _ => p end
     end
   end.
-Fixpoint branches (s : cstate) (evs : list event) : list nat :=
-  match evs with [] => [] | e :: r => branch_of s e ++ branches (step s e) r end.
-Definition case_branches (c : case) : list nat := branches (init (c_https c) (c_redirectable c)) (c_events c).
+Fixpoint branches (mof : N -> N) (s : cstate) (evs : list event) : list nat :=
+  match evs with [] => [] | e :: r => branch_of mof s e ++ branches mof (step mof s e) r end.
+Definition case_branches (c : case) : list nat :=
+  branches (mof_of (c_methods c)) (init_m (c_https c) (c_redirectable c) (c_cmethod c)) (c_events c).
